@@ -6,6 +6,7 @@ void dump_more_cond();
 void dump_more_memory();
 void dump_more_msp430dis();
 void dump_more_riscv();
+void dump_more_simtables();
 void dump_more_symbols();
 void dump_more_det();
 void dump_more_util();
@@ -17,6 +18,7 @@ static void dump_more()
   dump_more_memory();
   dump_more_msp430dis();
   dump_more_riscv();
+  dump_more_simtables();
   dump_more_symbols();
   dump_more_det();
   dump_more_util();
